@@ -20,9 +20,7 @@ CONSTANTS N, TolPositive       \* TolPositive: tol > 0 (a tolerance of exactly 0
 VARIABLES small, zero, k, stat, result
 vars == <<small, zero, k, stat, result>>
 
-RECURSIVE BoolSeqs(_)
-BoolSeqs(n) == IF n = 0 THEN {<<>>} ELSE {Append(s, b) : s \in BoolSeqs(n - 1), b \in BOOLEAN}
-Init == /\ small \in BoolSeqs(N) /\ zero \in BoolSeqs(N) /\ k = 0 /\ stat = "run" /\ result = 0
+Init == /\ small \in [1..N -> BOOLEAN] /\ zero \in [1..N -> BOOLEAN] /\ k = 0 /\ stat = "run" /\ result = 0
 
 \* one level with its verdicts (LevelV is used as it is by the trace specification Trace_TanhSinh)
 LevelV(v, z) ==
@@ -37,12 +35,7 @@ Level == stat = "run" /\ k < N /\ LevelV(small[k + 1], zero[k + 1])
 Exhausted == stat = "run" /\ k = N /\ stat' = "err" /\ UNCHANGED <<small, zero, k, result>>
 Next == Level \/ Exhausted
 
-\* the first level >= 3 with a zero delta or a small estimate, 0 if none
-RECURSIVE First(_)
-First(j) == IF j > N THEN 0 ELSE IF j >= 3 /\ (zero[j] \/ small[j]) THEN j ELSE First(j + 1)
 NeverBeforeThirdLevel == stat = "ok" => result >= 3
-ReturnsFirstQualifyingLevel == stat = "ok" => result = First(1)
-ErrOnlyWithoutQualifyingLevel ==
-  stat = "err" => (First(1) = 0 \/ (~TolPositive /\ zero[First(1)]))
-NoEarlyErr == (stat = "run" /\ k = N) => First(1) = 0
+\* (the invariants that need the recursively defined "first qualifying level" are in MC_TanhSinhStop; this module is
+\* kept free of RECURSIVE so that TLAPS can read it: TanhSinhLemmas proves NeverBeforeThirdLevel for every N)
 =============================================================================
